@@ -410,7 +410,10 @@ package tchannel
 // handed back for release, i.e. not left with an exchange; any other
 // well-formed error frame is not fatal for the connection.
 // (frame contents are those at entry: connectionError may change anything)
-//@ pred MexSetFull(s *messageExchangeSet) := MexSetOK(s) && MexSetInv(s) && (forall k uint32 :: has(s.exchanges, k) ==> s.exchanges[k].ctx != nil)
+// (the table invariant itself -- id k maps to the exchange with message id k --
+// is the exchange-set monitor's and is obtained with the lock, not required of
+// callers; every exchange has a context by messageExchange's structure invariant)
+//@ pred MexSetFull(s *messageExchangeSet) := MexSetOK(s)
 //@ func (c *Connection) handleError(frame *Frame) (release bool)
 //@   requires FrameFull(frame) && frame.Header.size >= 16
 //@   requires ConnErrOK(c) && MexSetFull(c.outbound)
